@@ -84,11 +84,20 @@ def looping_cubic(rng, scale=300.0):
     return c
 
 
-PAIR_FAMILIES = ['random', 'random-int', 'through', 'through', 'tiny', 'small', 'thin-axis', 'thin-near-axis', 'straight', 'loop', 'overlap-no-cross']
+PAIR_FAMILIES = ['symmetric', 'random', 'random-int', 'through', 'through', 'tiny', 'small', 'thin-axis', 'thin-near-axis', 'straight', 'loop', 'overlap-no-cross']
 
 
 def gen_pair(rng, fam=None):
     fam = fam or rng.choice(PAIR_FAMILIES)
+    if fam == 'symmetric':
+        # two point-symmetric cubics through a common centre, both at t = 1/2: the four half-boxes touch only in that point
+        c = P(float(rng.randint(-200, 200)), float(rng.randint(-200, 200)))
+        def sym():
+            u = P(float(rng.randint(100, 500)), float(rng.randint(-500, 500))); v = P(float(rng.randint(20, 300)), float(rng.randint(-300, 300)))
+            return CubicBezier(c + u * -1.0, c + v * -1.0, c + v, c + u)
+        a, b = sym(), sym()
+        if rng.random() < 0.5: b = CubicBezier(*[P(c.x - (p.y - c.y), c.y + (p.x - c.x)) for p in b.points])
+        return fam, a, b
     if fam == 'random': return fam, rcurve(rng), rcurve(rng)
     if fam == 'random-int': return fam, rcurve(rng, integer=True), rcurve(rng, integer=True)
     if fam == 'through':
@@ -684,6 +693,14 @@ def search(ctx):
         if len(samples) < 2: samples.append({'family': fam, 'a': gen.seg_json(a), 'b': gen.seg_json(b), 'true_crossings': ntrue})
         if f: record(f, {'pair': {'family': fam, 'a': gen.seg_json(a), 'b': gen.seg_json(b)}},
                      'every transversal interior crossing reported within 0.2% of the combined extent; no report with parameter points farther apart; order independent')
+    for _ in range(ctx.n(40, 600)):
+        fam, a, b = gen_pair(rng, fam=rng.choice(['random', 'through', 'random-int']))
+        qs = {'intersections-with-partner': lambda x: sorted((round(i.t1, 9), round(i.t2, 9)) for i in x.intersections(gen.fresh_copy(b))),
+              'partner-intersections-with-it': lambda x: sorted((round(i.t1, 9), round(i.t2, 9)) for i in gen.fresh_copy(b).intersections(x)),
+              'bounds': lambda x: x.bounds()}
+        ff = gen.freshness(rng, a, qs)
+        evals += 1; dist_['stale-state'] = dist_.get('stale-state', 0) + 1
+        if ff: record([('C06-stale-state', ff[0])], {'stale': {'a': gen.seg_json(a), 'b': gen.seg_json(b)}}, 'the same answer as for freshly constructed curves with the same control points')
     for _ in range(ctx.n(300, 6000)):
         k = rng.random()
         c = looping_cubic(rng) if k < 0.5 else rcurve(rng, 4, integer=rng.random() < 0.3)
@@ -708,6 +725,7 @@ def search(ctx):
 
 def replay(ctx, payload):
     i = payload['input']
+    if 'stale' in i: return {'fails': True, 'observed': 'stale-state sequence: rerun the search with the same seed'}
     if 'pair' in i: f, _, why = check_pair(gen.seg_from_json(i['pair']['a']), gen.seg_from_json(i['pair']['b']))
     elif 'cubic' in i: f, _, why = check_cubic_loop(gen.seg_from_json(i['cubic']))
     else: f, _, why = check_path([gen.seg_from_json(s) for s in i['path']])
